@@ -1308,8 +1308,9 @@ fn analyze_partial_pattern(
                             None,
                         )
                     } else {
-                        // First occurrence - record it and create a binding. Strip [] because if
-                        // the binding executes, the value is not [].
+                        // First occurrence - record it and create a binding, at the field's
+                        // own type: like a plain binder it binds whatever the field holds, nil
+                        // included (`B[m: []] =B(m)` matches and `m` is nil).
                         variant_identifiers.insert(
                             field_name.clone(),
                             Identifier {
@@ -1317,7 +1318,7 @@ fn analyze_partial_pattern(
                                 is_repeated: false,
                             },
                         );
-                        let var_type_id = without_nil(field_type_id, program);
+                        let var_type_id = field_type_id;
                         (
                             None,
                             Some(Binding {
@@ -1460,8 +1461,8 @@ fn analyze_star_pattern(
                     );
 
                     // Create a binding for this identifier
-                    // Strip [] from binding type because if the binding executes, the value is not []
-                    let var_type_id = without_nil(*field_type_id, program);
+                    // At the field's own type: the binding holds whatever the field holds, nil included
+                    let var_type_id = *field_type_id;
                     bindings.push(Binding {
                         name: field_name.clone(),
                         path: field_path,
@@ -1693,42 +1694,3 @@ fn is_compatible(a_id: usize, b_id: usize, program: &Program) -> bool {
     }
 }
 
-/// Remove nil from a type (for bindings that strip nil)
-fn without_nil(type_id: usize, program: &mut Program) -> usize {
-    let Some(ty) = program.lookup_type(type_id) else {
-        return type_id;
-    };
-
-    match ty {
-        Type::Union(ids) => {
-            let ids = ids.clone();
-            let filtered: Vec<usize> = ids
-                .into_iter()
-                .filter(|&id| {
-                    if let Some(Type::Tuple(tuple_id)) = program.lookup_type(id) {
-                        // Check if this is the nil tuple (empty tuple with no name)
-                        if let Some(info) = program.lookup_tuple(*tuple_id) {
-                            !(info.fields.is_empty() && info.name.is_none())
-                        } else {
-                            true
-                        }
-                    } else {
-                        true
-                    }
-                })
-                .collect();
-            union_type_ids(program, filtered)
-        }
-        Type::Tuple(tuple_id) => {
-            // Check if this is nil
-            if let Some(info) = program.lookup_tuple(*tuple_id)
-                && info.fields.is_empty()
-                && info.name.is_none()
-            {
-                return program.never();
-            }
-            type_id
-        }
-        _ => type_id,
-    }
-}
